@@ -701,7 +701,23 @@ Definition latch_eqb (a b : latch) : bool :=
    message's (round, index, type, kind, hash) *)
 Record obs := mkObs { o_ret : N; o_events : list event; o_latch : latch; o_count : N }.
 
-Record case := mkCase { c_env : env; c_ops : list op; c_obs : list obs }.
+(* Schedules.  The harness may request a second event (a context change or
+   another vote delivery) on another goroutine WHILE the authentication callbacks
+   of a vote message run.  Voter.lock serialises updateContext and
+   processVoteMsg, and processVoteMsg holds it from its first statement to its
+   return (Bridge.v: processVoteMsg_holds_lock, read off voter.go on every run),
+   so the second event takes effect after the first has completed: a schedule
+   is its linearisation, and every theorem about op lists applies to
+   [flatten] of any schedule. *)
+Inductive sop :=
+| P (o : op)                        (* one event at a time *)
+| During (m : msg) (o2 : op).       (* o2 requested during the authentication of Msg m *)
+
+Definition flatten1 (s : sop) : list op :=
+  match s with P o => [o] | During m o2 => [Msg m; o2] end.
+Definition flatten (l : list sop) : list op := flat_map flatten1 l.
+
+Record case := mkCase { c_env : env; c_ops : list sop; c_obs : list obs }.
 
 Fixpoint insert_pair (x : N * N) (l : list (N * N)) : list (N * N) :=
   match l with
@@ -748,26 +764,42 @@ Definition count_for (v : voter) (o : op) : N :=
   | _ => 0
   end.
 
-Fixpoint check_from (E : env) (v : voter) (ops : list op) (os : list obs) : bool :=
+(* a During pair is observed as a whole: the first record holds the message's
+   return code, the events of both (any order), the latches after both and the
+   message's count after both; the second the other event's return code and count *)
+Fixpoint check_from (E : env) (v : voter) (ops : list sop) (os : list obs) : bool :=
   match ops, os with
   | [], [] => true
-  | o :: r, x :: xs =>
+  | P o :: r, x :: xs =>
     let '(v', e, c) := step E v o in
     (c =? o_ret x) && events_eqb e (o_events x) && latch_eqb (latch_of v') (o_latch x)
     && (count_for v' o =? o_count x) && check_from E v' r xs
+  | During m o2 :: r, x :: y :: xs =>
+    let '(v1, e1, c1) := step E v (Msg m) in
+    let '(v2, e2, c2) := step E v1 o2 in
+    (c1 =? o_ret x) && events_eqb (e1 ++ e2) (o_events x) && latch_eqb (latch_of v2) (o_latch x)
+    && (count_for v2 (Msg m) =? o_count x)
+    && (c2 =? o_ret y) && (count_for v2 o2 =? o_count y) && check_from E v2 r xs
   | _, _ => false
   end.
 
-(* diagnostic: index of the first op whose observations differ, with the model's own *)
-Fixpoint first_bad_from (E : env) (v : voter) (i : N) (ops : list op) (os : list obs)
+(* diagnostic: index of the first schedule op whose observations differ, with the model's own *)
+Fixpoint first_bad_from (E : env) (v : voter) (i : N) (ops : list sop) (os : list obs)
   : option (N * (N * list event * latch * N)) :=
   match ops, os with
-  | o :: r, x :: xs =>
+  | P o :: r, x :: xs =>
     let '(v', e, c) := step E v o in
     if (c =? o_ret x) && events_eqb e (o_events x) && latch_eqb (latch_of v') (o_latch x)
        && (count_for v' o =? o_count x)
     then first_bad_from E v' (i + 1) r xs
     else Some (i, (c, e, latch_of v', count_for v' o))
+  | During m o2 :: r, x :: y :: xs =>
+    let '(v1, e1, c1) := step E v (Msg m) in
+    let '(v2, e2, c2) := step E v1 o2 in
+    if (c1 =? o_ret x) && events_eqb (e1 ++ e2) (o_events x) && latch_eqb (latch_of v2) (o_latch x)
+       && (count_for v2 (Msg m) =? o_count x) && (c2 =? o_ret y) && (count_for v2 o2 =? o_count y)
+    then first_bad_from E v2 (i + 1) r xs
+    else Some (i, (c1, e1 ++ e2, latch_of v2, count_for v2 (Msg m)))
   | _, _ => None
   end.
 Definition first_bad (c : case) := first_bad_from (c_env c) init_voter 0 (c_ops c) (c_obs c).
